@@ -1002,6 +1002,30 @@ theorem history_eq_elementwise (prog : List (CInstr R)) (hv : ∀ i ∈ prog, i.
       simp only [Outcome.map, absState]
       exact ih (fun j hj => hv j (List.mem_cons_of_mem _ hj)) cs1 w1 (hstep.2 cs1 w1 hm)
 
+/-- **Derivatives after programs.**  When a program of container operations succeeds, the same
+    program on scalar records succeeds with the same records and tapes, and `derivatives()` of
+    every container in the final state — results of allocating operations, of multiplications,
+    containers overwritten in place or `reset` — is the reverse sweep of its element-by-element
+    records on the final tapes. -/
+theorem program_derivatives_eq_elementwise (prog : List (CInstr R)) (hv : ∀ i ∈ prog, i.Valid)
+    (cs : List (Cont R)) (w : World R) (hwf : AllWF cs) (cs' : List (Cont R)) (w' : World R)
+    (hrun : runModel prog cs w = .ok (cs', w')) :
+    runSpec prog (cs.map Cont.abs) w = .ok (cs'.map Cont.abs, w')
+      ∧ ∀ c ∈ cs', c.derivatives w' = recsDerivatives c.abs.2 w' := by
+  have key := history_eq_elementwise prog hv cs w hwf
+  constructor
+  · rw [← key.1, hrun]; rfl
+  · intro c hc
+    have hcw : c.WF := key.2 cs' w' hrun c hc
+    rw [container_derivatives_eq_scalar]
+    unfold recsDerivatives Cont.abs
+    simp only [toRecs_eq]
+    cases he : c.elems with
+    | nil => exact absurd he hcw.nonempty
+    | cons e es =>
+      simp only [recsOf_cons, List.head?_cons]
+      cases c.history <;> rfl
+
 example : (CInstr.vars 0 [("r", 1), ("c", 2)] [(2 : ℚ), 3]).Valid := by
   refine ⟨by decide, by simp⟩
 
